@@ -248,7 +248,7 @@ fn main() {
 
     if args.replay.is_none() {
         let mut rng = Rng::new(args.seed);
-        let n = if args.thorough() { 30_000 } else { 2_500 };
+        let n = if args.thorough() { 20_000 } else { 2_000 };
         for i in 0..n {
             let mut r = rng.fork();
             let size = 2 + r.usize(if i % 10 == 0 { 40 } else { 14 });
